@@ -507,6 +507,12 @@ def explore_real(tier, props):
                 found.append(dict(prop='C04', scenario=f'real/{backend}/ceiling', message=f'{r["peak"]} task processes executing at once with max_workers=3'))
             if r['peak_by'].get('Lim', 0) > 2:
                 found.append(dict(prop='C04', scenario=f'real/{backend}/ceiling', message=f'{r["peak_by"]["Lim"]} tasks of a max_parallel=2 type executing at once'))
+            for _retry in range(2):        # a lower bound on observed overlap is timing-sensitive on a loaded machine: confirm before reporting
+                if not r['hung'] and r['peak'] < 3:
+                    r2 = run_real('ceiling', backend, 3)
+                    runs += 1
+                    if r2['peak'] >= 3:
+                        r = dict(r, peak=r2['peak'])
             if not r['hung'] and r['peak'] < 3:
                 found.append(dict(prop='C05', scenario=f'real/{backend}/ceiling', message=f'never more than {r["peak"]} tasks executing with max_workers=3 and 11 runnable tasks'))
             r = run_real('quick-then-slow', backend, 2)
@@ -518,7 +524,7 @@ def explore_real(tier, props):
             runs += 1
             if r['hung']:
                 found.append(dict(prop='C11', scenario=f'real/{backend}/death-then-work', message='run_tasks did not terminate within 40s after a worker was killed'))
-            elif r['peak'] < 2:
+            elif r['peak'] < 2 and run_real('death-then-work', backend, 2)['peak'] < 2 and run_real('death-then-work', backend, 2)['peak'] < 2:
                 found.append(dict(prop='C05', scenario=f'real/{backend}/death-then-work', message=f'after a worker died only {r["peak"]} task executed at a time with max_workers=2 and 4 runnable tasks'))
             r = run_real('death-with-monitor', backend, 2, timeout=40)
             runs += 1
